@@ -365,3 +365,24 @@ func panicClass(msg string) string {
 	}
 	return "explicit-panic"
 }
+
+// PathResult is the outcome of one explored path.
+type PathResult struct {
+	Pending      [][]int64
+	Violations   []Violation
+	Stats        *PathStats
+	Inconclusive []string
+	Solver       SolverStats
+}
+
+// RunOne explores exactly one path of fn(args...) determined by the decision prefix.
+func (w *Worker) RunOne(fn *ssa.Function, args []interface{}, prefix []int64) *PathResult {
+	out := &Outcome{Stats: newPathStats()}
+	base := w.Solver.Stats
+	pc := w.runPath(fn, args, prefix, out)
+	st := w.Solver.Stats
+	out.Stats.Paths = 1
+	return &PathResult{Pending: pc.pending, Violations: pc.viol, Stats: out.Stats, Inconclusive: out.Inconclusive,
+		Solver: SolverStats{Queries: st.Queries - base.Queries, Sat: st.Sat - base.Sat, Unsat: st.Unsat - base.Unsat,
+			Unknown: st.Unknown - base.Unknown, Restarts: st.Restarts - base.Restarts, Nanos: st.Nanos - base.Nanos}}
+}
